@@ -48,19 +48,6 @@ def calNcl (n : Nat) : Nat := (8 + n + 63) / 64 + 2
 /-- number of cells the payload bytes `[8, 8+n)` of a message touch -/
 def spanCells (n : Nat) : Nat := (8 + n + 63) / 64
 
-/-- union of two sets of write ids kept as duplicate-free lists (`a` then what `b` adds): with a plain
-`++` a thread that is writer and reader doubles its set at every release/acquire pair -/
-def kmerge (a b : List Nat) : List Nat := a ++ b.filter (fun x => !a.contains x)
-
-theorem mem_kmerge_left {a : List Nat} (b : List Nat) {x : Nat} (h : x ∈ a) : x ∈ kmerge a b :=
-  List.mem_append_left _ h
-
-theorem mem_kmerge_right (a : List Nat) {b : List Nat} {x : Nat} (h : x ∈ b) : x ∈ kmerge a b := by
-  unfold kmerge
-  by_cases ha : x ∈ a
-  · exact List.mem_append_left _ ha
-  · exact List.mem_append_right _ (List.mem_filter.2 ⟨h, by simpa using ha⟩)
-
 /-- harness: fill byte of the `k`-th operation of thread `t` -/
 def tagOf (t k : Nat) : Nat := 1 + (t * 29 + k * 7) % 120
 
